@@ -2,6 +2,8 @@
 
 mod builder;
 pub mod iter;
+#[cfg(daachorse_verif)]
+mod verif;
 
 use core::mem;
 use core::num::NonZeroU32;
@@ -673,6 +675,8 @@ impl<V> DoubleArrayAhoCorasick<V> {
         // In the loop, state_id is always set to values smaller than states.len(),
         // because child_index_unchecked() and fail() return such values.
         loop {
+            #[cfg(daachorse_verif)]
+            crate::verif_ticks::tick();
             if let Some(state_id) = self.child_index_unchecked(state_id, c) {
                 return state_id;
             }
@@ -691,6 +695,8 @@ impl<V> DoubleArrayAhoCorasick<V> {
         // In the loop, state_id is always set to values smaller than states.len(),
         // because child_index_unchecked() and fail() return such values.
         loop {
+            #[cfg(daachorse_verif)]
+            crate::verif_ticks::tick();
             if let Some(state_id) = self.child_index_unchecked(state_id, c) {
                 return state_id;
             }
